@@ -83,6 +83,25 @@ static void sharing_case(Ctx& c, uint64_t index) {
     return true;
   };
   if (!compare("after building")) return;
+  // a sized proper prefix of a string that already lives in the document, handed back to the same document as a value or a key
+  if (!as_keys) {
+    for (int k = 0; k < 3 && !model.empty() && model.size() + 4 < kMaxSlots / 2; k++) {
+      size_t i = (size_t)r.below(model.size());
+      if (model[i].k != MVal::Str || model[i].s.empty()) continue;
+      size_t len = (size_t)r.below(model[i].s.size());
+      std::string prefix = model[i].s.substr(0, len);
+      unsigned how = (unsigned)r.below(3);
+      for (AJ::JsonDocument* d : {&A, &B, &C}) {
+        AJ::JsonString js = (*d)[i].as<AJ::JsonString>();
+        if (how == 0) d->add(AJ::JsonString(js.c_str(), len, AJ::JsonString::Copied));
+        else if (how == 1) d->add(std::string_view(js.c_str(), len));
+        else { AJ::JsonObject o = d->add<AJ::JsonObject>(); o[std::string_view(js.c_str(), len)] = 1; }
+      }
+      if (how < 2) model.push_back(MVal::str(prefix)); else { MVal o = MVal::obj(); o.o.emplace_back(prefix, MVal::uint(1)); model.push_back(o); }
+      c.count("aliased_prefixes");
+    }
+    if (!compare("after storing prefixes of the document's own strings")) return;
+  }
   int ops = (int)r.range(3, 40);
   for (int k = 0; k < ops; k++) {
     if (as_keys) {
